@@ -50,6 +50,7 @@ def expressions(rnd, objs, plain, feats_by_class):
                    'list(%s)[0].' % o, '[y for y in %s][0].' % o, '(%s if %s else 1).' % (o, o),
                    '%s.prop.' % o, '%s.nd.' % o, '%s.dd.' % o, '%s.meth(' % o, '%s(' % o,
                    '%s.lcm.' % o, '%s.lcm(' % o, '%s.csm' % o, '%s.lprop.' % o, '%s.lcm' % o,
+                   '%s.gd.' % o, '%s.gd' % o,
                    'not %s' % o, '%s.i_list[0].' % o, 'next(%s).' % o, 'bool(%s)' % o,
                    'x, y = %s\nx.' % o, '%s.dynamic_one.' % o]
         elif o.startswith('K'):
@@ -85,7 +86,7 @@ def run(spec):
     namespace = {k: ns[k] for k in objs}
     exprs = expressions(rnd, objs, plain, feats_by_class)
     rnd.shuffle(exprs)
-    counted_present = any(set(f) & {'property', 'nondata_desc', 'data_desc', 'meta_property', 'sub_builtin_desc',
+    counted_present = any(set(f) & {'property', 'nondata_desc', 'data_desc', 'meta_property', 'sub_builtin_desc', 'getdel_desc',
                                     'meta_desc', 'getitem', 'iter', 'next', 'call', 'len', 'bool'}
                           for f in feats_by_class.values())
     control_moved = False
